@@ -9,6 +9,7 @@ from ..core import digest_of, jsonable, rng_from, stream_seeds, to_np
 from ..crashloop import explore
 from ..runner import run_process
 from . import runs
+from ..swarm import PRECONDS_WITH_FLOW
 from .common import shrink_scenario_candidates
 
 ID = "C10"
@@ -48,7 +49,7 @@ def scenario_of(case):
         from . import c05_blackjax
 
         return c05_blackjax.scenario(case)
-    scn = runs.draw_any(case["scenario_seed"], case["tier"])
+    scn = runs.draw_any(case["scenario_seed"], case["tier"], preconds=PRECONDS_WITH_FLOW)
     rng = rng_from(case["fault_seed"])
     # half of the cases: a proposal much wider than the prior support -> retry loop
     if rng.integers(2) == 0:
